@@ -278,6 +278,7 @@ macro_rules! any_slot {
 
 #[kani::proof]
 #[kani::unwind(16)]
+#[kani::stub(crate::dp::peripheral::Peripheral::transmit_telegram, crate::dp::peripheral::verif::abs_transmit_telegram)]
 fn c14_master_transmit_2slots_q() {
     let fdl = any_fdl();
     let user: [u8; 1] = kani::any();
@@ -292,6 +293,7 @@ fn c14_master_transmit_2slots_q() {
 
 #[kani::proof]
 #[kani::unwind(16)]
+#[kani::stub(crate::dp::peripheral::Peripheral::transmit_telegram, crate::dp::peripheral::verif::abs_transmit_telegram)]
 fn c14_master_transmit_3slots_t() {
     let fdl = any_fdl();
     let user: [u8; 1] = kani::any();
@@ -345,4 +347,89 @@ fn hang_c14_master_empty() {
     let mut buf = [0u8; 24];
     let res = m.transmit_telegram(crate::time::Instant::ZERO, &fdl, TelegramTx::new(&mut buf), HighPrioOnly::Yes);
     assert!(res.is_none());
+}
+
+
+// ==========================================================================================
+// receive_reply routing: exactly the addressed slot is touched, the cycle advances by one
+// occupied slot, the peripheral's event is reported
+// ==========================================================================================
+
+fn check_master_receive(m: &mut DpMaster, fdl: &FdlActiveStation) {
+    let n = slots(&m.peripherals);
+    let mut pre: [Option<PSnap>; MAXS] = [None; MAXS];
+    let mut i = 0;
+    while i < n {
+        if let Some(p) = peek(&m.peripherals, i) {
+            kani::assume(inv_dp(p, fdl));
+            pre[i] = Some(snap(p));
+        }
+        i += 1;
+    }
+    // a reply can only be outstanding for the slot the cycle index denotes (C15 + transmit lemma)
+    let idx = match m.state.cycle_state {
+        CycleState::DataExchange(j) => usize::from(j),
+        CycleState::CycleCompleted => {
+            kani::assume(false);
+            0
+        }
+    };
+    let s = match occupied_from(m, idx) {
+        Some(s) => s,
+        None => {
+            kani::assume(false);
+            0
+        }
+    };
+    let addr = pre[s].unwrap().address;
+    let now = crate::time::Instant::from_micros(kani::any::<u32>());
+    let telegram = crate::fdl::Telegram::ShortConfirmation(crate::fdl::ShortConfirmation);
+
+    m.receive_reply(now, fdl, addr, telegram);
+
+    let events = m.state.last_events.clone();
+    let mut i = 0;
+    while i < n {
+        if i != s {
+            if let (Some(a), Some(p)) = (pre[i], peek(&m.peripherals, i)) {
+                assert!(snap(p) == a, "C14/routing: a reply touches only the peripheral it was addressed to");
+            }
+        }
+        i += 1;
+    }
+    match occupied_from(m, s + 1) {
+        Some(next) => {
+            assert!(resolves_to(m, m.state.cycle_state, next), "C14/order: after a reply the cycle continues with the next occupied slot");
+            assert!(!events.cycle_completed, "C14/cycle: 'cycle completed' is not reported before the last peripheral had its turn");
+            kani::cover!(next > s + 1, "cover: an unoccupied slot is skipped");
+        }
+        None => {
+            assert!(m.state.cycle_state == CycleState::CycleCompleted && events.cycle_completed, "C14/cycle: the reply of the last peripheral completes the cycle, reported once");
+            kani::cover!(true, "cover: cycle completed by the last reply");
+        }
+    }
+    match events.peripheral {
+        Some((hd, _ev)) => assert!(hd.address() == addr, "C14/events: the reported event names the peripheral that replied"),
+        None => {}
+    }
+}
+
+#[kani::proof]
+#[kani::unwind(8)]
+#[kani::stub(crate::dp::peripheral::Peripheral::receive_reply, crate::dp::peripheral::verif::abs_receive_reply)]
+fn c14_master_receive_3slots_q() {
+    let fdl = any_fdl();
+    let user: [u8; 1] = kani::any();
+    let cfg: [u8; 1] = kani::any();
+    slot_bufs!(i0, q0, d0);
+    slot_bufs!(i1, q1, d1);
+    slot_bufs!(i2, q2, d2);
+    let mut storage = [
+        any_slot!(i0, q0, d0, user, cfg),
+        any_slot!(i1, q1, d1, user, cfg),
+        any_slot!(i2, q2, d2, user, cfg),
+    ];
+    let mut m = DpMaster::new(&mut storage[..]);
+    m.state = any_master_state(3);
+    check_master_receive(&mut m, &fdl);
 }
